@@ -2,6 +2,9 @@
 # runs the pinned test suite (guard off) and compares with BASELINE.json stable_pass
 out=${1:-/tmp/verif_baseline.xml}
 cd /repo && env -u BEC2FORMAT_VERIF /venv/bin/python -m pytest -ra -q -p no:cacheprovider --timeout=900 --continue-on-collection-errors --junitxml=$out > /tmp/verif_baseline.log 2>&1
+# the hypothesis example database under /repo/.hypothesis must not keep examples from this run (a saved failing example
+# of a randomised test would be replayed for ever): remove what this run added
+find /repo/.hypothesis/examples -type f -newer /verif/properties.jsonl -delete 2>/dev/null; find /repo/.hypothesis/examples -type d -empty -delete 2>/dev/null
 /venv/bin/python - "$out" <<'P'
 import sys, json, xml.etree.ElementTree as ET
 b = json.load(open('/root/.vp/BASELINE.json'))
